@@ -157,6 +157,18 @@ Proof.
         f_equal. eauto.
 Qed.
 
+Lemma sublist_elem {A} (l k : list A) x : l `sublist_of` k -> x ∈ l -> x ∈ k.
+Proof. intros Hs Hx. eapply elem_of_submseteq; [exact Hx|]. apply sublist_submseteq. exact Hs. Qed.
+
+Lemma sublist_NoDup {A} (l k : list A) : l `sublist_of` k -> NoDup k -> NoDup l.
+Proof.
+  induction 1 as [|x l k Hs IH|x l k Hs IH]; intros Hk.
+  - constructor.
+  - apply NoDup_cons in Hk as [Hx Hk]. apply NoDup_cons. split; [|auto].
+    intros Hin. apply Hx. eapply sublist_elem; eauto.
+  - apply NoDup_cons in Hk as [_ Hk]. auto.
+Qed.
+
 (** The ids of the new list are ids of the old one. *)
 Lemma vote_loop_ids id from h bs found nc f :
   vote_loop id from h bs found = inr (nc, f) -> map bid nc `sublist_of` map bid bs.
@@ -203,7 +215,7 @@ Proof.
         apply Hc. rewrite Ei, <- H1'. apply elem_of_list_fmap. eauto.
       * destruct IH as [Ho Hi]. pose proof (vote_loop_ids _ _ _ _ _ _ _ El) as Hsub.
         assert (Hnone : find_id (bid cnd) nc = None).
-        { apply find_id_none. intros Hin. apply Hc. eapply sublist_elem_of; eauto. }
+        { apply find_id_none. intros Hin. apply Hc. eapply sublist_elem; eauto. }
         split.
         -- intros i Hne. rewrite find_id_cons. destruct (bytes_eqb (bid cnd) i) eqn:Ei.
            ++ apply bytes_eqb_eq in Ei. subst i. cbn. rewrite Ee. exact Hnone.
@@ -226,7 +238,7 @@ Proof.
               split.
               ** intros i Hne. rewrite !find_id_cons. cbn [bid]. rewrite Ei.
                  destruct (bytes_eqb id i) eqn:Ei2; [apply bytes_eqb_eq in Ei2; congruence|auto].
-              ** rewrite find_id_cons, Ei, bytes_eqb_refl. cbn. rewrite Ee.
+              ** rewrite find_id_cons, Ei, bytes_eqb_refl. cbn [live_b]. rewrite Ee.
                  apply existsb_bytes_false in Ex. split; [exact Ex|].
                  rewrite find_id_cons. cbn [bid]. rewrite bytes_eqb_refl. auto.
       * (* a live ballot of another decision: kept *)
@@ -240,5 +252,481 @@ Proof.
            ++ rewrite !find_id_cons, Ei. exact Hi.
 Qed.
 
-Lemma sublist_NoDup {A} (l k : list A) : l `sublist_of` k -> NoDup k -> NoDup l.
-Proof. intros Hs Hk. eapply NoDup_submseteq'; [|exact Hk]. apply sublist_submseteq. exact Hs. Qed.
+
+Lemma find_id_app i l k :
+  find_id i (l ++ k) = match find_id i l with Some b => Some b | None => find_id i k end.
+Proof.
+  induction l as [|b l IH]; [reflexivity|]. cbn [app]. rewrite !find_id_cons.
+  destruct (bytes_eqb (bid b) i); [reflexivity|exact IH].
+Qed.
+
+Lemma tlive_abs bs id h :
+  tlive (abs_box bs) id h = match live_b h (find_id id bs) with Some b => voters b | None => [] end.
+Proof. unfold tlive. rewrite tprune_abs. destruct (live_b h (find_id id bs)); reflexivity. Qed.
+
+Lemma expired_now id vs h : expired h (mkBallot id vs h) = false.
+Proof. unfold expired, block_diff. cbn [bheight]. lia. Qed.
+
+(** [Vote] in terms of the tally read off the stored list. *)
+Lemma vote_spec id from h bs :
+  NoDup (map bid bs) ->
+  let vs := tally_incl (abs_box bs) id from h in
+  exists bs' b',
+    vote bs id from h = (bs', Z.of_nat (length vs)) /\
+    NoDup (map bid bs') /\
+    find_id id bs' = Some b' /\ voters b' = vs /\ expired h b' = false /\
+    (from ∈ stored_tally bs id h -> bs' = bs) /\
+    (from ∉ stored_tally bs id h -> bheight b' = h) /\
+    (forall i, i <> id -> live_b h (find_id i bs') = live_b h (find_id i bs)).
+Proof.
+  intros Hnd vs. subst vs. unfold tally_incl, stored_tally. rewrite tlive_abs.
+  unfold vote. pose proof (vote_loop_spec id from h bs (-1) Hnd) as Hs.
+  destruct (vote_loop id from h bs (-1)) as [n|[nc f]] eqn:El.
+  - destruct Hs as (b & Hf & He & Hin & ->). rewrite Hf. cbn [live_b]. rewrite He.
+    assert (Hx : existsb (bytes_eqb from) (voters b) = true) by (apply existsb_bytes; exact Hin).
+    rewrite Hx. exists bs, b. repeat split; auto. contradiction.
+  - destruct Hs as [Ho Hi]. pose proof (vote_loop_ids _ _ _ _ _ _ _ El) as Hsub.
+    assert (Hnc : NoDup (map bid nc)) by (eapply sublist_NoDup; eauto).
+    destruct (live_b h (find_id id bs)) as [b|] eqn:Elive.
+    + destruct Hi as (Hnin & Hf & ->).
+      assert (Hx : existsb (bytes_eqb from) (voters b) = false) by (apply existsb_bytes_false; exact Hnin).
+      rewrite Hx. assert (Hlt : (Z.of_nat (length (voters b ++ [from])) <? 0) = false) by lia.
+      rewrite Hlt. eexists nc, _. split; [reflexivity|]. split; [exact Hnc|].
+      split; [exact Hf|]. split; [reflexivity|]. split; [apply expired_now|].
+      split; [contradiction|]. split; [reflexivity|].
+      intros i Hne. rewrite (Ho i Hne). apply live_b_idem.
+    + destruct Hi as (Hf & ->). cbn [existsb app]. change (-1 <? 0) with true. cbn iota.
+      assert (Hid : id ∉ map bid nc) by (apply find_id_none; exact Hf).
+      eexists _, _. split; [reflexivity|]. split.
+      { rewrite map_app. apply NoDup_app. split; [exact Hnc|]. split.
+        - intros x Hx Hx'. cbn in Hx'. apply elem_of_list_singleton in Hx'. subst x. contradiction.
+        - cbn. apply NoDup_singleton. }
+      split. { rewrite find_id_app, Hf. rewrite find_id_cons. cbn [bid]. rewrite bytes_eqb_refl. reflexivity. }
+      split; [reflexivity|]. split; [apply expired_now|].
+      split. { intros Hin. inversion Hin. }
+      split; [reflexivity|].
+      intros i Hne. rewrite find_id_app. rewrite (Ho i Hne).
+      destruct (live_b h (find_id i bs)) as [b|] eqn:E2.
+      * rewrite <- E2. apply live_b_idem.
+      * rewrite find_id_cons. cbn [bid].
+        destruct (bytes_eqb id i) eqn:E3; [apply bytes_eqb_eq in E3; congruence|reflexivity].
+Qed.
+
+(** * 4. [RemoveVotes] *)
+
+Fixpoint remove_first (id : bytes) (bs : list ballot) : list ballot :=
+  match bs with
+  | [] => []
+  | b :: r => if bytes_eqb (bid b) id then r else b :: remove_first id r
+  end.
+
+Lemma find_idx_some id bs i j :
+  find_idx id bs i = Some j ->
+  exists k, j = (i + k)%nat /\ (k < length bs)%nat /\ delete k bs = remove_first id bs.
+Proof.
+  revert i. induction bs as [|b r IH]; intros i H; [discriminate|].
+  cbn [find_idx] in H. cbn [remove_first]. destruct (bytes_eqb (bid b) id).
+  - injection H as <-. exists 0%nat. cbn. split; [lia|]. split; [lia|reflexivity].
+  - destruct (IH _ H) as (k & -> & Hk & Hd). exists (S k). cbn [length]. split; [lia|].
+    split; [lia|]. cbn [delete list_delete]. f_equal. exact Hd.
+Qed.
+
+Lemma find_idx_none id bs i : find_idx id bs i = None -> find_id id bs = None.
+Proof.
+  revert i. induction bs as [|b r IH]; intros i H; [reflexivity|].
+  cbn [find_idx] in H. rewrite find_id_cons. destruct (bytes_eqb (bid b) id); [discriminate|eauto].
+Qed.
+
+Lemma remove_votes_found id bs b :
+  find_id id bs = Some b -> remove_votes bs id = Halt (remove_first id bs).
+Proof.
+  intros Hf. unfold remove_votes, first_index.
+  destruct (find_idx id bs 0) as [j|] eqn:E.
+  - apply find_idx_some in E as (k & -> & Hk & Hd). cbn [Nat.add].
+    assert (Hlt : (k <? length bs)%nat = true) by lia. rewrite Hlt, Hd. reflexivity.
+  - apply find_idx_none in E. congruence.
+Qed.
+
+Lemma remove_first_sublist id bs : remove_first id bs `sublist_of` bs.
+Proof.
+  induction bs as [|b r IH]; [constructor|]. cbn [remove_first].
+  destruct (bytes_eqb (bid b) id); [apply sublist_cons; reflexivity|apply sublist_skip; exact IH].
+Qed.
+
+Lemma remove_first_ids id bs : map bid (remove_first id bs) `sublist_of` map bid bs.
+Proof.
+  induction bs as [|b r IH]; [constructor|]. cbn [remove_first map].
+  destruct (bytes_eqb (bid b) id); [apply sublist_cons; reflexivity|cbn [map]; apply sublist_skip; exact IH].
+Qed.
+
+Lemma remove_first_find_other id bs i :
+  i <> id -> find_id i (remove_first id bs) = find_id i bs.
+Proof.
+  intros Hne. induction bs as [|b r IH]; [reflexivity|]. cbn [remove_first].
+  destruct (bytes_eqb (bid b) id) eqn:E.
+  - rewrite find_id_cons. apply bytes_eqb_eq in E.
+    destruct (bytes_eqb (bid b) i) eqn:E2; [apply bytes_eqb_eq in E2; congruence|reflexivity].
+  - rewrite !find_id_cons. destruct (bytes_eqb (bid b) i); [reflexivity|exact IH].
+Qed.
+
+Lemma remove_first_find_same id bs :
+  NoDup (map bid bs) -> find_id id (remove_first id bs) = None.
+Proof.
+  induction bs as [|b r IH]; intros Hnd; [reflexivity|].
+  cbn [map] in Hnd. apply NoDup_cons in Hnd as [Hb Hnd]. cbn [remove_first].
+  destruct (bytes_eqb (bid b) id) eqn:E.
+  - apply bytes_eqb_eq in E. apply find_id_none. rewrite <- E. exact Hb.
+  - rewrite find_id_cons, E. auto.
+Qed.
+
+Lemma remove_first_others id bs :
+  filter (fun b => other id b = true) (remove_first id bs) = filter (fun b => other id b = true) bs.
+Proof.
+  induction bs as [|b r IH]; [reflexivity|]. cbn [remove_first].
+  destruct (bytes_eqb (bid b) id) eqn:E.
+  - rewrite (filter_cons_False _ b) by (unfold other; rewrite E; discriminate). reflexivity.
+  - rewrite !(filter_cons_True _ b) by (unfold other; rewrite E; reflexivity). f_equal. exact IH.
+Qed.
+
+(** * 5. The vote-collection block [collect] refines [tcollect] *)
+
+(** Two tally boxes that agree on everything still fresh at height [h]. *)
+Definition tb_eq (h : Z) (t1 t2 : tbox) : Prop := forall i, tprune h (t1 i) = tprune h (t2 i).
+
+(** Invariant of the stored list + agreement with a tally box. *)
+Definition box_rel (h : Z) (bs : list ballot) (tb : tbox) : Prop :=
+  NoDup (map bid bs) /\ tb_eq h (abs_box bs) tb.
+
+Lemma tb_eq_mono h h' t1 t2 : h <= h' -> tb_eq h t1 t2 -> tb_eq h' t1 t2.
+Proof.
+  intros Hle H i. specialize (H i). unfold tprune in *.
+  destruct (t1 i) as [a|], (t2 i) as [b|]; try reflexivity.
+  - destruct (h - tlast a >? 20) eqn:E1, (h - tlast b >? 20) eqn:E2.
+    + replace (h' - tlast a >? 20) with true by lia. replace (h' - tlast b >? 20) with true by lia. reflexivity.
+    + discriminate.
+    + discriminate.
+    + injection H as ->. reflexivity.
+  - destruct (h - tlast a >? 20) eqn:E1; [|discriminate].
+    replace (h' - tlast a >? 20) with true by lia. reflexivity.
+  - destruct (h - tlast b >? 20) eqn:E1; [|discriminate].
+    replace (h' - tlast b >? 20) with true by lia. reflexivity.
+Qed.
+
+Lemma box_rel_mono h h' bs tb : h <= h' -> box_rel h bs tb -> box_rel h' bs tb.
+Proof. intros Hle [H1 H2]. split; [exact H1|eapply tb_eq_mono; eauto]. Qed.
+
+Lemma tlive_eq h t1 t2 id : tb_eq h t1 t2 -> tlive t1 id h = tlive t2 id h.
+Proof. intros H. unfold tlive. rewrite (H id). reflexivity. Qed.
+
+Lemma tally_incl_eq h t1 t2 id from : tb_eq h t1 t2 -> tally_incl t1 id from h = tally_incl t2 id from h.
+Proof. intros H. unfold tally_incl. rewrite (tlive_eq _ _ _ _ H). reflexivity. Qed.
+
+Lemma tupd_eq h t1 t2 id v : tb_eq h t1 t2 -> tb_eq h (tupd t1 id v) (tupd t2 id v).
+Proof. intros H i. unfold tupd. destruct (bytes_eqb i id); [reflexivity|apply H]. Qed.
+
+(** [tcollect] respects the agreement. *)
+Lemma tcollect_eq a h t1 t2 id from :
+  tb_eq h t1 t2 ->
+  match tcollect a t1 id from h, tcollect a t2 id from h with
+  | Halt (t1', g1), Halt (t2', g2) => tb_eq h t1' t2' /\ g1 = g2
+  | _, _ => False
+  end.
+Proof.
+  intros H. unfold tcollect. rewrite (tally_incl_eq _ _ _ _ from H), (tlive_eq _ _ _ id H).
+  destruct (existsb (bytes_eqb from) (tlive t2 id h));
+    destruct (Z.of_nat (length (tally_incl t2 id from h)) <? thr (Z.of_nat (length a)));
+    (split; [|reflexivity]); repeat apply tupd_eq; exact H.
+Qed.
+
+(** The code's block on a well-formed list = the spec's block on the tally
+    read off that list. *)
+Lemma collect_abs a h bs id from :
+  NoDup (map bid bs) ->
+  match collect a bs id from h, tcollect a (abs_box bs) id from h with
+  | Halt (bs', g1), Halt (tb', g2) => box_rel h bs' tb' /\ g1 = g2
+  | _, _ => False
+  end.
+Proof.
+  intros Hnd. destruct (vote_spec id from h bs Hnd) as (bs1 & b1 & Hv & Hnd1 & Hf1 & Hvs & Hex & Hrep & Hnew & Hoth).
+  unfold collect, tcollect. rewrite Hv, threshold_thr.
+  set (vs := tally_incl (abs_box bs) id from h) in *.
+  set (tb1 := if existsb (bytes_eqb from) (tlive (abs_box bs) id h) then abs_box bs
+              else tupd (abs_box bs) id (Some (mkTally vs h))).
+  assert (H1 : tb_eq h (abs_box bs1) tb1).
+  { intros i. subst tb1. unfold stored_tally in Hrep, Hnew.
+    destruct (existsb (bytes_eqb from) (tlive (abs_box bs) id h)) eqn:Ex.
+    - apply existsb_bytes in Ex. rewrite (Hrep Ex). reflexivity.
+    - apply existsb_bytes_false in Ex. unfold tupd. destruct (bytes_eqb i id) eqn:Ei.
+      + apply bytes_eqb_eq in Ei. subst i. rewrite abs_box_find, Hf1. cbn [option_map].
+        unfold tally_of. rewrite Hvs, (Hnew Ex). reflexivity.
+      + apply bytes_eqb_neq in Ei. rewrite !tprune_abs, (Hoth i Ei). reflexivity. }
+  destruct (Z.of_nat (length vs) <? thr (Z.of_nat (length a))).
+  - split; [|reflexivity]. split; assumption.
+  - rewrite (remove_votes_found _ _ _ Hf1). cbn [obind]. split; [|reflexivity]. split.
+    + eapply sublist_NoDup; [apply remove_first_ids|exact Hnd1].
+    + intros i. unfold tupd at 1. destruct (bytes_eqb i id) eqn:Ei.
+      * apply bytes_eqb_eq in Ei. subst i. rewrite abs_box_find, remove_first_find_same by exact Hnd1. reflexivity.
+      * apply bytes_eqb_neq in Ei. rewrite abs_box_find, remove_first_find_other by exact Ei.
+        rewrite <- abs_box_find. apply H1.
+Qed.
+
+Lemma collect_refines a h bs tb id from :
+  box_rel h bs tb ->
+  match collect a bs id from h, tcollect a tb id from h with
+  | Halt (bs', g1), Halt (tb', g2) => box_rel h bs' tb' /\ g1 = g2
+  | _, _ => False
+  end.
+Proof.
+  intros [Hnd Heq]. pose proof (collect_abs a h bs id from Hnd) as H1.
+  pose proof (tcollect_eq a h _ _ id from Heq) as H2.
+  destruct (collect a bs id from h) as [[bs' g1]|]; [|destruct (tcollect a (abs_box bs) id from h); contradiction].
+  destruct (tcollect a (abs_box bs) id from h) as [[t1 g2]|]; [|contradiction].
+  destruct (tcollect a tb id from h) as [[t2 g3]|]; [|contradiction].
+  destruct H1 as [[Hn He] ->], H2 as [He2 ->]. split; [|reflexivity].
+  split; [exact Hn|]. intros i. rewrite (He i). apply He2.
+Qed.
+
+(** * 6. The gated methods, generically in the ballot box *)
+
+Section Gated.
+  Variable valid_pub : bytes -> bool.
+  Variable std_acc : bytes -> bytes.
+  Variable del_id : bytes -> bytes.
+
+  Lemma check_witness_halt c b w :
+    check_witness valid_pub c b = Halt w -> w = existsb (bytes_eqb b) (witnessed c).
+  Proof. unfold check_witness. destruct (_ || _); [|discriminate]. congruence. Qed.
+
+  Lemma inner_ring_invoker_some c ir k :
+    inner_ring_invoker valid_pub c ir = Halt (Some k) -> k ∈ ir /\ k ∈ witnessed c.
+  Proof.
+    induction ir as [|node rest IH]; intros H; [discriminate|].
+    cbn [inner_ring_invoker] in H.
+    destruct (check_witness valid_pub c node) as [w|] eqn:Ew; cbn [obind] in H; [|discriminate].
+    apply check_witness_halt in Ew. destruct w.
+    - injection H as <-. symmetry in Ew. apply existsb_bytes in Ew. split; [apply elem_of_cons; auto|exact Ew].
+    - destruct (IH H) as [H1 H2]. split; [apply elem_of_cons; auto|exact H2].
+  Qed.
+
+  Lemma inner_ring_invoker_stranger c ir :
+    (forall k, k ∈ ir -> k ∉ witnessed c) ->
+    inner_ring_invoker valid_pub c ir = Halt None \/ inner_ring_invoker valid_pub c ir = Fault.
+  Proof.
+    induction ir as [|node rest IH]; intros H; [left; reflexivity|].
+    cbn [inner_ring_invoker].
+    destruct (check_witness valid_pub c node) as [w|] eqn:Ew; cbn [obind]; [|right; reflexivity].
+    apply check_witness_halt in Ew.
+    assert (Hf : existsb (bytes_eqb node) (witnessed c) = false).
+    { apply existsb_bytes_false. apply H. apply elem_of_cons; auto. }
+    rewrite Hf in Ew. subst w. apply IH. intros k Hk. apply H. apply elem_of_cons; auto.
+  Qed.
+
+  Context {B : Type}.
+  Variable collect : list bytes -> B -> bytes -> bytes -> Z -> outcome (B * bool).
+  Notation gstate := (gstate (B := B)).
+  Notation gexec := (gexec valid_pub std_acc del_id collect).
+  Notation gstep := (gstep valid_pub std_acc del_id collect).
+
+  (** The invoker found by the contract is a stored Alphabet key witnessed by
+      the transaction. *)
+  Lemma alphabet_invoker_member c (s : gstate) k :
+    alphabet_invoker valid_pub c s = Halt k -> k ∈ alphabet s /\ k ∈ witnessed c.
+  Proof.
+    unfold alphabet_invoker.
+    destruct (inner_ring_invoker valid_pub c (alphabet s)) as [[k'|]|] eqn:E; cbn [obind]; try discriminate.
+    destruct (length k' =? 0)%nat; [discriminate|]. intros H. injection H as <-.
+    eapply inner_ring_invoker_some; eauto.
+  Qed.
+
+  Lemma alphabet_invoker_stranger c (s : gstate) :
+    (forall k, k ∈ alphabet s -> k ∉ witnessed c) -> alphabet_invoker valid_pub c s = Fault.
+  Proof.
+    intros H. unfold alphabet_invoker.
+    destruct (inner_ring_invoker_stranger c (alphabet s) H) as [-> | ->]; reflexivity.
+  Qed.
+
+  (** Normal form of a vote-gated invocation: invoker, argument guards, the
+      vote-collection block, then the action or nothing. *)
+  Definition gated_nf (c : nctx) (s : gstate) (o : nop) (id : bytes)
+    : outcome (gstate * bool * list nnotif) :=
+    k <-! alphabet_invoker valid_pub c s;
+    if args_ok valid_pub o then
+      '(b1, go) <-! collect (alphabet s) (box s) id k (height c);
+      if go then
+        if action_ok c s o then Halt (effect c s b1 o, true, notifs_of o) else Fault
+      else Halt (set_box s b1, false, [])
+    else Fault.
+
+  Lemma gexec_gated c s o id :
+    decision_id del_id c o = Some id -> gexec c s o = gated_nf c s o id.
+  Proof.
+    intros Hd. unfold gated_nf. destruct o as [cid user amount lockAcc|uid keys|sid key val|key|key|amount];
+      cbn [decision_id] in Hd; try discriminate.
+    - (* Cheque *)
+      injection Hd as ->. cbn [NeoFSVote.gexec args_ok].
+      destruct (alphabet_invoker valid_pub c s) as [k|]; cbn [obind]; [|reflexivity].
+      destruct (collect (alphabet s) (box s) id k (height c)) as [[b1 go]|]; cbn [obind]; [|reflexivity].
+      destruct go; cbn [negb]; [|reflexivity].
+      unfold action_ok, gas_transfer.
+      destruct (length (self c) =? 20)%nat; cbn [negb orb andb obind]; [|reflexivity].
+      destruct (length user =? 20)%nat; cbn [negb orb andb obind]; [|reflexivity].
+      destruct (amount <? 0) eqn:E1.
+      { replace (0 <=? amount) with false by lia. reflexivity. }
+      replace (0 <=? amount) with true by lia. cbn [negb andb].
+      destruct (gas_bal (gas s) (self c) <? amount) eqn:E2.
+      { replace (amount <=? gas_bal (gas s) (self c)) with false by lia. reflexivity. }
+      replace (amount <=? gas_bal (gas s) (self c)) with true by lia. reflexivity.
+    - (* AlphabetUpdate *)
+      injection Hd as ->. cbn [NeoFSVote.gexec args_ok].
+      destruct (length keys =? 0)%nat; cbn [negb oassert obind andb].
+      { destruct (alphabet_invoker valid_pub c s); reflexivity. }
+      destruct (alphabet_invoker valid_pub c s) as [k|]; cbn [obind]; [|reflexivity].
+      destruct (forallb (fun k0 => (length k0 =? 33)%nat) keys); cbn [oassert obind]; [|reflexivity].
+      destruct (collect (alphabet s) (box s) id k (height c)) as [[b1 go]|]; cbn [obind]; [|reflexivity].
+      destruct go; reflexivity.
+    - (* SetConfig *)
+      injection Hd as ->. cbn [NeoFSVote.gexec args_ok].
+      destruct (alphabet_invoker valid_pub c s) as [k|]; cbn [obind]; [|reflexivity].
+      destruct (collect (alphabet s) (box s) id k (height c)) as [[b1 go]|]; cbn [obind]; [|reflexivity].
+      destruct go; cbn [negb]; [|reflexivity].
+      unfold action_ok. destruct (length key <=? 58)%nat; reflexivity.
+    - (* CandidateRemove, not by the candidate *)
+      destruct (existsb (bytes_eqb key) (witnessed c)) eqn:Ew; [discriminate|]. injection Hd as <-.
+      cbn [NeoFSVote.gexec args_ok]. unfold check_witness at 1. rewrite Ew.
+      destruct ((length key =? 20)%nat || valid_pub key); cbn [obind].
+      2:{ destruct (alphabet_invoker valid_pub c s); reflexivity. }
+      destruct (alphabet_invoker valid_pub c s) as [k|]; cbn [obind]; [|reflexivity].
+      destruct (collect (alphabet s) (box s) (del_id key) k (height c)) as [[b1 go]|]; cbn [obind]; [|reflexivity].
+      destruct go; reflexivity.
+  Qed.
+
+  (** An invocation that is not vote-gated never touches the ballot box and
+      does not read it. *)
+  Lemma gexec_ungated c s o :
+    decision_id del_id c o = None ->
+    match gexec c s o with
+    | Halt (s', f, ns) => box s' = box s /\ ns = []
+    | Fault => True
+    end.
+  Proof.
+    intros Hd. destruct o as [cid user amount lockAcc|uid keys|sid key val|key|key|amount];
+      cbn [decision_id] in Hd; try discriminate; cbn [NeoFSVote.gexec].
+    - destruct (existsb (bytes_eqb key) (witnessed c)) eqn:Ew; [|discriminate].
+      unfold check_witness. rewrite Ew. destruct (_ || _); cbn [obind]; [|exact I]. split; reflexivity.
+    - repeat match goal with
+             | |- context [obind ?x _] => destruct x as [?|]; cbn [obind]; [|exact I]
+             | |- context [let '(_, _) := ?x in _] => destruct x
+             end.
+      split; reflexivity.
+    - destruct (oassert (0 <=? amount)); cbn [obind]; [|exact I]. split; reflexivity.
+  Qed.
+End Gated.
+
+(** * 7. Simulation between two representations of the ballot box *)
+
+Section Sim.
+  Variable valid_pub : bytes -> bool.
+  Variable std_acc : bytes -> bytes.
+  Variable del_id : bytes -> bytes.
+  Context {B1 B2 : Type}.
+  Variable c1 : list bytes -> B1 -> bytes -> bytes -> Z -> outcome (B1 * bool).
+  Variable c2 : list bytes -> B2 -> bytes -> bytes -> Z -> outcome (B2 * bool).
+  Variable R : B1 -> B2 -> Prop.
+
+  Definition st_rel (s1 : gstate (B := B1)) (s2 : gstate (B := B2)) : Prop :=
+    same_but_box s1 s2 /\ R (box s1) (box s2).
+
+  Definition res_rel (r1 : outcome (gstate (B := B1) * bool * list nnotif))
+                     (r2 : outcome (gstate (B := B2) * bool * list nnotif)) : Prop :=
+    match r1, r2 with
+    | Halt (s1', f1, n1), Halt (s2', f2, n2) => st_rel s1' s2' /\ f1 = f2 /\ n1 = n2
+    | Fault, Fault => True
+    | _, _ => False
+    end.
+
+  Lemma alphabet_invoker_same c (s1 : gstate (B := B1)) (s2 : gstate (B := B2)) :
+    alphabet s1 = alphabet s2 -> alphabet_invoker valid_pub c s1 = alphabet_invoker valid_pub c s2.
+  Proof. intros H. unfold alphabet_invoker. rewrite H. reflexivity. Qed.
+
+  Lemma gexec_sim c s1 s2 o :
+    st_rel s1 s2 ->
+    (forall a id k,
+        match c1 a (box s1) id k (height c), c2 a (box s2) id k (height c) with
+        | Halt (b1, g1), Halt (b2, g2) => R b1 b2 /\ g1 = g2
+        | _, _ => False
+        end) ->
+    res_rel (gexec valid_pub std_acc del_id c1 c s1 o) (gexec valid_pub std_acc del_id c2 c s2 o).
+  Proof.
+    intros [Hs HR] Hc. destruct (decision_id del_id c o) as [id|] eqn:Hd.
+    - rewrite (gexec_gated _ _ _ c1 c s1 o id Hd), (gexec_gated _ _ _ c2 c s2 o id Hd).
+      unfold gated_nf. destruct Hs as (Ha & Hcf & Hcd & Hg).
+      rewrite (alphabet_invoker_same c s1 s2 Ha).
+      destruct (alphabet_invoker valid_pub c s2) as [k|]; cbn [obind]; [|exact I].
+      destruct (args_ok valid_pub o); [|exact I].
+      specialize (Hc (alphabet s1) id k). rewrite <- Ha.
+      destruct (c1 (alphabet s1) (box s1) id k (height c)) as [[b1 g1]|];
+        destruct (c2 (alphabet s1) (box s2) id k (height c)) as [[b2 g2]|]; try contradiction.
+      destruct Hc as [Hb ->]. cbn [obind]. destruct g2.
+      + assert (Hao : action_ok c s1 o = action_ok c s2 o).
+        { unfold action_ok. rewrite Hg. reflexivity. }
+        rewrite Hao. destruct (action_ok c s2 o); [|exact I].
+        split; [|split; reflexivity]. split; [|destruct o; exact Hb].
+        destruct o; unfold effect, set_box, same_but_box; cbn [alphabet config cands gas];
+          rewrite ?Ha, ?Hcf, ?Hcd, ?Hg; repeat split; reflexivity.
+      + split; [|split; reflexivity]. split; [|exact Hb].
+        unfold set_box, same_but_box; cbn [alphabet config cands gas]. auto.
+    - destruct s1 as [a1 b1 cf1 cd1 g1], s2 as [a2 b2 cf2 cd2 g2].
+      destruct Hs as (Ha & Hcf & Hcd & Hg). cbn [alphabet config cands gas box] in *. subst a2 cf2 cd2 g2.
+      destruct o as [cid user amount lockAcc|uid keys|sid key val|key|key|amount];
+        cbn [decision_id] in Hd; try discriminate; cbn [NeoFSVote.gexec alphabet config cands gas box].
+      + destruct (existsb (bytes_eqb key) (witnessed c)) eqn:Ew; [|discriminate].
+        unfold check_witness. rewrite Ew. destruct (_ || _); cbn [obind]; [|exact I].
+        split; [|split; reflexivity]. split; [|exact HR]. repeat split; reflexivity.
+      + unfold res_rel.
+        repeat match goal with
+               | |- context [obind ?x _] => destruct x as [?|]; cbn [obind]; [|exact I]
+               | |- context [let '(_, _) := ?x in _] => destruct x
+               end.
+        split; [|split; reflexivity]. split; [|exact HR]. repeat split; reflexivity.
+      + destruct (oassert (0 <=? amount)); cbn [obind]; [|exact I].
+        split; [|split; reflexivity]. split; [|exact HR]. repeat split; reflexivity.
+  Qed.
+End Sim.
+
+(** * 8. Ballot-wise invariants of the stored list *)
+
+Lemma vote_forall (Pb : ballot -> Prop) bs id from h bs' n :
+  vote bs id from h = (bs', n) -> Forall Pb bs ->
+  (forall vs, vs = [from] \/
+              (exists cnd, cnd ∈ bs /\ Pb cnd /\ bid cnd = id /\ from ∉ voters cnd /\
+                           expired h cnd = false /\ vs = voters cnd ++ [from]) ->
+              Pb (mkBallot id vs h)) ->
+  Forall Pb bs'.
+Proof.
+  intros Hv Hall Hnew. rewrite Forall_forall in Hall. unfold vote in Hv.
+  destruct (vote_loop id from h bs (-1)) as [m|[nc f]] eqn:El.
+  - injection Hv as <- _. apply Forall_forall. exact Hall.
+  - assert (Hnc : Forall Pb nc).
+    { apply Forall_forall. intros b Hb.
+      destruct (vote_loop_elems _ _ _ _ _ _ _ El b Hb) as [(H1 & _)|(cnd & H1 & H2 & H3 & H4 & ->)]; [auto|].
+      apply Hnew. right. exists cnd. repeat split; auto. }
+    destruct (f <? 0); injection Hv as <- _; [|exact Hnc].
+    apply Forall_app. split; [exact Hnc|]. apply Forall_singleton. apply Hnew. left. reflexivity.
+Qed.
+
+Lemma collect_forall (Pb : ballot -> Prop) a bs id from h bs' go :
+  collect a bs id from h = Halt (bs', go) -> Forall Pb bs ->
+  (forall vs, vs = [from] \/
+              (exists cnd, cnd ∈ bs /\ Pb cnd /\ bid cnd = id /\ from ∉ voters cnd /\
+                           expired h cnd = false /\ vs = voters cnd ++ [from]) ->
+              Pb (mkBallot id vs h)) ->
+  Forall Pb bs'.
+Proof.
+  intros Hc Hall Hnew. unfold collect in Hc.
+  destruct (vote bs id from h) as [bs1 n] eqn:Ev.
+  pose proof (vote_forall Pb _ _ _ _ _ _ Ev Hall Hnew) as H1.
+  destruct (n <? threshold a); [injection Hc as <- _; exact H1|].
+  unfold remove_votes in Hc. destruct (_ <? _)%nat; cbn [obind] in Hc; [|discriminate].
+  injection Hc as <- _. rewrite Forall_forall in H1. apply Forall_forall. intros b Hb.
+  apply H1. eapply sublist_elem; [apply sublist_delete|exact Hb].
+Qed.
